@@ -1,17 +1,18 @@
 """C05 - matrix products follow the definition for every shape and transpose flag (DESIGN 4/C05)."""
 LEVEL = "model_checking"
-RULE = ('P1: for all shapes m, l, n in 1..KC (quick 3, thorough 5), four flag pairs and the non-conformable neighbour '
-        '(inner dimension off by one) TLC checks MatmulCode (explicit transposition; both flags via (B.A)^T) = ProdSpec'
-        ' and BlockedCode(bs) = ProdSpec for every block size 1..2KC, the transpose identity the both-flags branch '
-        'relies on, and homogeneity (sA)(tB) = st AB; P2: for all shapes 1..K (quick 5, thorough 9) x flags x '
-        '{conformable, non-conformable} the exact product is emitted and replayed through matmul, matmul_blocked for '
-        'every block size 1..2 max(m,l,n), xtx, and every Dot method in all receiver/argument ownership combinations '
-        '(Matrix.Matrix; Matrix.Vector when n = 1; Vector.Matrix when m = 1; Vector.Vector when m = n = 1), equality '
-        'oracle on integer entries, panic expected for non-conformable shapes; a third of the cases is replayed again '
-        'with the operands scaled by powers of two (2^-60 x 2^60, 2^-55 x 2^-55, 2^300 x 2^200, 2^-500 x 1: still '
-        'exact); P3: random shapes up to 12 (quick) / 16 (thorough) with entries in +-50 recorded and validated by TLC '
-        '(Trace_Products); shapes 17..64 through the relational observation matmul_blocked = matmul. Case class = '
-        '(entry point + ownership, flags, shape class, conformable?, block-size class).')
+RULE = ("P1: for all shapes m, l, n in 1..KC (quick 3, thorough 5), four flag pairs and the non-conformable neighbour "
+        "(inner dimension off by one) TLC checks MatmulCode (explicit transposition; both flags via (B.A)^T) = ProdSpec"
+        " and BlockedCode(bs) = ProdSpec for every block size 1..2KC, the transpose identity the both-flags branch "
+        "relies on, and homogeneity (sA)(tB) = st AB; P2 (inner products additionally of length 64, 65, 70, 96, 97, "
+        "130): for all shapes 1..K (quick 5, thorough 9) x flags x {conformable, non-conformable} the exact product is "
+        "emitted and replayed through matmul, matmul_blocked for every block size 1..2 max(m,l,n), xtx, and every Dot "
+        "method in all receiver/argument ownership combinations (Matrix.Matrix; Matrix.Vector when n = 1; Vector.Matrix"
+        " when m = 1; Vector.Vector when m = n = 1), equality oracle on integer entries, panic expected for non-"
+        "conformable shapes; a third of the cases is replayed again with the operands scaled by powers of two (2^-60 x "
+        "2^60, 2^-55 x 2^-55, 2^300 x 2^200, 2^-500 x 1: still exact); P3: random shapes up to 12 (quick) / 16 "
+        "(thorough) with entries in +-50 recorded and validated by TLC (Trace_Products); shapes 17..64 through the "
+        "relational observation matmul_blocked = matmul. Case class = (entry point + ownership, flags, shape class, "
+        "conformable?, block-size class).")
 ASSUMPTIONS = ["integer-valued entries: products and sums exact in f64 (equality oracle)",
                "a Vector argument/receiver is promoted to a column/row as the trait documentation states"]
 EXHAUSTIVE = True
